@@ -189,7 +189,7 @@ def concretise(abstract, rnd):
 def random_abstract(rnd):
     """second source of abstract behaviours (same vocabulary as AwDurable's Emit)"""
     out = []
-    mode = rnd.choice(["mixed", "trickle", "deletes", "bursts", "upserts"])
+    mode = rnd.choice(["mixed", "trickle", "slowtrickle", "deletes", "bursts", "upserts"])
     for _ in range(rnd.randint(5, 18)):
         r = rnd.random()
         if mode == "trickle":
@@ -197,6 +197,10 @@ def random_abstract(rnd):
             out.append({"op": rnd.choice(["insert", "insert", "replace", "delete"]), "n": 1})
             if r < 0.1:
                 out.append({"op": "read", "n": 0})
+        elif mode == "slowtrickle":
+            # every gap is below the age limit, their sum is not: only the age of the OLDEST buffered write can flush these
+            out.append({"op": "tick", "n": rnd.choice([4, 6, 9, 9])})
+            out.append({"op": "insert", "n": 1})
         elif mode == "deletes":
             if r < 0.35:
                 out.append({"op": "insert", "n": rnd.choice([1, 30, 70, 70])})
